@@ -8,7 +8,7 @@ for c in cs:
     if c.trusted or c.path is None: continue
     if len(sys.argv) > 2 and sys.argv[2] not in c.target: continue
     out = verify_contract(c, reg, int(sys.argv[3]) if len(sys.argv) > 3 else 10000)
-    print("==", c.target, out["status"], out.get("why", ""), f"{out['seconds']:.1f}s paths={out.get('paths')}")
+    print("==", c.target + (f"[{c.label}]" if getattr(c, "label", None) else ""), out["status"], out.get("why", ""), f"{out['seconds']:.1f}s paths={out.get('paths')}")
     for r in aggregate(out["results"]):
         flag = "" if r["verdict"] in ("discharged", "covered") else "   <<<<<<"
         print(f"   {r['verdict']:11s} {r['id']:32s} x{r['instances']} {r['solver']} {r['seconds']}s  {r.get('note','')[:90]}{flag}")
